@@ -11,6 +11,7 @@ let rec prog () =
   match next () with
   | "O" -> PObserve | "T" -> PText | "R" -> PRaise | "B" -> PBreak | "X" -> PReturn
   | "F" -> let n = int_of_string (next ()) in let k = int_of_string (next ()) in PFor (nat_of_int n, times k prog)
+  | "G" -> let k = int_of_string (next ()) in PForRaise (times k prog)
   | "Y" -> let kb = int_of_string (next ()) in let b = times kb prog in
     let kh = int_of_string (next ()) in let h = times kh prog in PTry (b, h)
   | t -> failwith ("prog " ^ t)
